@@ -1360,7 +1360,7 @@ def shortest_int(data: np.ndarray, percent: float=50) -> tuple[float, float]:
             lambda data, lag: data[lag:] - data[:-lag]
         )  # Difference between two elements of an array separated by a distance 'lag'
 
-        data = np.sort(data)
+        data = np.sort(data).astype(float)  # differences of narrow integer dtypes (int8, int16, ...) would wrap around
         lag = int(len(data) * percent/100)
         diff = diff_lag(data, lag)
         i = np.where(np.abs(diff - np.min(diff)) < 1e-10)[0]
